@@ -1,7 +1,7 @@
 from mpi4py import MPI
 import numpy as np
 import h5py
-from glob import glob
+from glob import glob, escape
 import os
 
 from .layout import LayoutManager
@@ -221,7 +221,7 @@ class Grid(object):
         """
         if (time is None):
             list_of_files = glob(
-                "{0}/{1}_*".format(foldername, nameConvention))
+                "{0}/{1}_*".format(escape(foldername), escape(nameConvention)))
             # The latest checkpoint is the one with the largest time (the
             # names are only ordered like the times up to 6 digits)
             filename = max(list_of_files,
